@@ -1666,3 +1666,20 @@ package ir
 //@   assigns nothing
 //@   ensures len(result) == 0
 //@ # ==== generated: end ====
+
+//@ # ---------------------------------------------------------------- C06 (extractvalue) ---
+//@ # LLVM's rule: extractvalue steps through struct fields and array elements, one index per level.
+//@ macro astep(t types.Type, i uint64) types.Type = ite(typeis(t, "*types.ArrayType"), cast(t, "*types.ArrayType").ElemType, cast(t, "*types.StructType").Fields[i])
+//@ rec spec aggok(t types.Type, idx []uint64) bool reads {elems(uint64), types.ArrayType.ElemType, types.StructType.Fields, elems(types.Type)} = len(idx) == 0 || ((typeis(t, "*types.ArrayType") || (typeis(t, "*types.StructType") && idx[0] < len(cast(t, "*types.StructType").Fields))) && aggok(astep(t, idx[0]), idx[1:len(idx)]))
+//@ rec spec aggty(t types.Type, idx []uint64) types.Type reads {elems(uint64), types.ArrayType.ElemType, types.StructType.Fields, elems(types.Type)} = ite(len(idx) == 0, t, aggty(astep(t, idx[0]), idx[1:len(idx)]))
+//@ func aggregateElemType
+//@   props C06
+//@   requires aggok(t, indices)
+//@   assigns nothing
+//@   ensures result == aggty(t, indices)
+//@ func (*InstExtractValue).Type
+//@   props C06 C14
+//@   requires inst != nil && inst.X != nil && aggok(vtype(inst.X), inst.Indices)
+//@   requires inst.Typ == nil || inst.Typ == aggty(vtype(inst.X), inst.Indices)
+//@   assigns caches
+//@   ensures result == aggty(vtype(inst.X), inst.Indices) && inst.Typ == result
